@@ -2,6 +2,7 @@ package rules
 
 import (
 	"go/token"
+	"sort"
 	"strings"
 
 	"golang.org/x/tools/go/ssa"
@@ -82,7 +83,14 @@ func checkC12(c *Ctx) {
 	isPeriod := func(v ssa.Value) bool { return eng.SameField(eng.LoadedField(eng.StripConv(v)), fPeriod) }
 	// ---- D1
 	n := 0
-	for _, fn := range eng.WithAnons(scan) {
+	var scanFns []*ssa.Function
+	for fn := range p.SyncReach(scan) {
+		if eng.FuncPkgPath(fn) == eng.Mod+"/pkg/storage" {
+			scanFns = append(scanFns, fn)
+		}
+	}
+	sort.Slice(scanFns, func(i, j int) bool { return scanFns[i].String() < scanFns[j].String() })
+	for _, fn := range scanFns {
 		fn := fn
 		eng.EachInstr(fn, func(in ssa.Instruction) {
 			call, ok := in.(*ssa.Call)
@@ -100,18 +108,25 @@ func checkC12(c *Ctx) {
 			}
 			msg := idc.Call.Value
 			guard := ""
-			for _, b := range fn.Blocks {
-				for k := 0; k < len(b.Succs) && len(b.Succs) == 2; k++ {
-					if !eng.EdgeDominates(b, k, call.Block()) {
-						continue
-					}
-					if why, ok := c.expiredEdge(b, k, msg, isPeriod); ok {
-						guard = why
-					} else if why != "" && guard == "" {
-						guard = "!" + why
+			// the age test may sit in a caller when the removal was extracted into a helper
+			// that receives the message as a parameter
+			p.Lift(in, msg, 0, func(site ssa.Instruction, subj ssa.Value) bool {
+				found := false
+				for _, b := range site.Parent().Blocks {
+					for k := 0; k < len(b.Succs) && len(b.Succs) == 2; k++ {
+						if !eng.EdgeDominates(b, k, site.Block()) {
+							continue
+						}
+						if why, ok := c.expiredEdge(b, k, subj, isPeriod); ok {
+							guard = why
+							found = true
+						} else if why != "" && !found {
+							guard = "!" + why
+						}
 					}
 				}
-			}
+				return found
+			})
 			switch {
 			case guard == "":
 				r.Bad("C12/GUARD/expired", cons, p.InstrPos(in), "the removal is not control-dependent on an age test of the message: every visited message is deleted")
